@@ -298,6 +298,19 @@ def feedSegs (cfg : Config) (st : St) (segs : List Bytes) : St × List Action :=
 /-- all actions of a connection that receives the segments and then EOF -/
 def run (cfg : Config) (segs : List Bytes) : List Action := (feedSegs cfg St.init segs).2
 
+/-- the overflow guard with the CAPACITY of the read buffer in place of the number of bytes read
+    (`self.buffer.len() + read_buf.len() > max_buffer_size`) — not the code as it is; kept for the
+    counterexample `overflow_guard_capacity_counterexample`.  When this guard passes, the real one
+    (`+ n`, n ≤ capacity) passes too, so the rest of the step is `onRead`. -/
+def onReadCap (cfg : Config) (st : St) (chunk : Bytes) : St × List Action :=
+  if st.closed then (st, [])
+  else if st.buf.length + cfg.readSize > cfg.maxBuffer then (⟨st.buf, st.inTx, true⟩, [.overflow])
+  else onRead cfg st chunk
+
+def runCap (cfg : Config) (segs : List Bytes) : List Action :=
+  ((segs.flatMap (fun s => splitReads cfg.readSize s.length s)).foldl
+    (fun (acc : St × List Action) c => let (s', a) := onReadCap cfg acc.1 c; (s', acc.2 ++ a)) (St.init, [])).2
+
 /-! ## connection buffers come from a shared pool (`BufferPoolAsync`, connection_pool.rs)
 
 `OptimizedConnectionHandler::new` ACQUIRES its read buffer and then its write buffer from the
